@@ -213,6 +213,8 @@ package datastore
 //@   ensures assign != nil && old(has(m.repos, *assign)) ==> result0 == nil && m.versionID == old(m.versionID) && m.repoID == old(m.repoID)
 //@   ensures assign != nil && old(has(m.repos, *assign)) ==> (forall v dvid.VersionID :: has(m.versionToUUID, v) == old(has(m.versionToUUID, v))) && (forall u dvid.UUID :: has(m.uuidToVersion, u) == old(has(m.uuidToVersion, u)) && m.uuidToVersion[u] == old(m.uuidToVersion[u]))
 
+// The snapshot of the parent used by the sibling-branch check and the append of the new child lie in
+// one critical section of newVersionMutex (C11: at most one new child per branch).
 //@ func repoManager.newVersion
 //@   lockset
 //@   unguarded child
@@ -223,6 +225,8 @@ package datastore
 //@   modifies *
 //@   invariant loop 1: forall j int :: {node.children[j]} 0 <= j && j <= rangeindex ==> has(r.dag.nodes, node.children[j]) && r.dag.nodes[node.children[j]].branch != branchname
 //@   invariant loop 2: forall u dvid.VersionID :: visited2[u] ==> r.dag.nodes[u].branch != branchname
+//@   assert at "locked := node.locked": heldw("m.newVersionMutex")
+//@   assert at "node.children = append(node.children, childV)": heldw("m.newVersionMutex")
 //@   assert at "childUUID, childV, err := m.newUUID(assign)": node.locked
 //@   assert at "childUUID, childV, err := m.newUUID(assign)": branchname != node.branch ==> (forall u dvid.VersionID :: has(r.dag.nodes, u) ==> r.dag.nodes[u].branch != branchname)
 //@   assert at "childUUID, childV, err := m.newUUID(assign)": branchname == node.branch ==> (forall j int :: {node.children[j]} 0 <= j && j < len(node.children) ==> r.dag.nodes[node.children[j]].branch != branchname)
@@ -240,7 +244,8 @@ package datastore
 //@   assert at "childUUID, childV, err := m.newUUID(nil)": forall j int :: {parents[j]} 0 <= j && j < len(parents) ==> has(m.uuidToVersion, parents[j]) && has(r.dag.nodes, m.uuidToVersion[parents[j]]) && r.dag.nodes[m.uuidToVersion[parents[j]]].locked
 
 // commit: a node already committed is refused; a successful commit has written the repo (with the
-// locked flag) to the metadata store (C03: the flag survives a restart).
+// locked flag) to the metadata store (C03: the flag survives a restart). The test of node.locked and
+// its setting lie in one critical section of the node's mutex (C11: one of several concurrent commits wins).
 //@ func repoManager.commit
 //@   lockset
 //@   prop C07 C03 C11
@@ -254,6 +259,9 @@ package datastore
 //@   ghost setLocked bool = false
 //@   ghostset at "if len(note) != 0 {": setLocked = node.locked
 //@   ghostset at "return r.save()": saved = true
+//@   ghost testEpoch int = 0
+//@   ghostset at "if node.locked {": testEpoch = lockepoch("node.RWMutex")
+//@   assert at "node.locked = true": heldw("node.RWMutex") && lockepoch("node.RWMutex") == testEpoch
 //@   ensures result == nil ==> saved && !wasLocked && setLocked
 
 // ---- copying a data instance (C19): the two receiving goroutines of copyData ----
